@@ -15,7 +15,15 @@ from ..provider.loc_stack_filtering import LocStack
 from ..provider.located_request import LocatedRequestDelegatingProvider, LocatedRequestT, for_predicate
 from ..provider.location import GenericParamLoc, TypeHintLoc
 from ..special_cases_optimization import as_is_stub
-from ..type_tools import BaseNormType, NormTypeAlias, is_new_type, is_subclass_soft, is_typed_dict_class, strip_tags
+from ..type_tools import (
+    BaseNormType,
+    NormTypeAlias,
+    is_new_type,
+    is_subclass_soft,
+    is_typed_dict_class,
+    normalize_type,
+    strip_tags,
+)
 from ..type_tools.basic_utils import eval_forward_ref, get_forward_ref_namespace
 from ..type_tools.implicit_params import fill_implicit_params
 from ..utils import MappingHashWrapper
@@ -521,7 +529,7 @@ class UnionProvider(LoaderProvider, DumperProvider):
 
         forbidden_origins = [
             case.source for case in norm.args
-            if not self._is_class_origin(strip_tags(case).origin) and case.origin != Literal
+            if not self._is_class_origin(self._unwrap_case(case).origin) and self._unwrap_case(case).origin != Literal
         ]
 
         if forbidden_origins:
@@ -549,8 +557,7 @@ class UnionProvider(LoaderProvider, DumperProvider):
         return mediator.cached_call(self._make_dumper, norm, tuple(dumpers))
 
     def _make_dumper(self, norm: BaseNormType, dumpers: Iterable[Dumper]) -> Dumper:
-        # `Annotated[Decimal, ...]` is dumped by class of wrapped type
-        origins = [strip_tags(case).origin for case in norm.args]
+        origins = [self._unwrap_case(case).origin for case in norm.args]
         dumper_type_dispatcher = ClassDispatcher(
             {self._get_runtime_class(origin): dumper for origin, dumper in zip(origins, dumpers)},
         )
@@ -561,6 +568,13 @@ class UnionProvider(LoaderProvider, DumperProvider):
             return literal_dumper
 
         return self._produce_dumper(dumper_type_dispatcher)
+
+    def _unwrap_case(self, case: BaseNormType) -> BaseNormType:
+        # `Annotated[Decimal, ...]` and `NewType("N", Decimal)` are dumped by class of wrapped type
+        case = strip_tags(case)
+        while is_new_type(case.origin):
+            case = strip_tags(normalize_type(case.origin.__supertype__))
+        return case
 
     def _get_runtime_class(self, origin) -> type:
         if origin is None:
@@ -598,7 +612,9 @@ class UnionProvider(LoaderProvider, DumperProvider):
     ) -> Optional[Dumper]:
         try:
             literal_type, literal_dumper = next(
-                (union_case, dumper) for union_case, dumper in zip(norm.args, dumpers) if union_case.origin is Literal
+                (self._unwrap_case(union_case), dumper)
+                for union_case, dumper in zip(norm.args, dumpers)
+                if self._unwrap_case(union_case).origin is Literal
             )
         except StopIteration:
             return None
